@@ -20,8 +20,10 @@ def plan_value(prop, srcs, tier, parts=(1, 2, 3, 4), san=True, landmarks=configs
     clang++ C++20 on three configs, ASan+UBSan on four configs (quick) / all (thorough)."""
     if tier == 'thorough':
         cfgs, lad = thorough_configs(prop)
+        qcfgs = {configs.closure(c) for c in quick_configs(prop, landmarks)[0]}
     else:
         cfgs, lad = quick_configs(prop, landmarks)
+        qcfgs = {configs.closure(c) for c in cfgs}
     if isinstance(srcs, str):
         srcs = [(srcs, parts)]
     jobs = []
@@ -30,13 +32,18 @@ def plan_value(prop, srcs, tier, parts=(1, 2, 3, 4), san=True, landmarks=configs
             std = 11 if tier == 'quick' else STD_ROT[i % 4]
             for p in sparts:
                 jobs.append(Job(src, c, 'g++', std, plain_variant, p, extra=extra, libs=libs, incdirs=incdirs))
-        clang_cfgs = cfgs if (tier == 'thorough' or clang_all) else [c for c in cfgs if configs.name(c) in CLANG_QUICK]
+        # clang++: quick = three landmark configurations at C++20; thorough = every configuration of the quick plan
+        # (ladder cover + landmarks), language level rotating
+        if tier == 'thorough':
+            clang_cfgs = [c for c in cfgs if configs.closure(c) in qcfgs]
+        else:
+            clang_cfgs = cfgs if clang_all else [c for c in cfgs if configs.name(c) in CLANG_QUICK]
         for i, c in enumerate(clang_cfgs):
             std = 20 if tier == 'quick' else STD_ROT[(i + 2) % 4]
             for p in sparts:
                 jobs.append(Job(src, c, 'clang++', std, plain_variant, p, extra=extra, libs=libs, incdirs=incdirs))
         if san:
-            san_cfgs = cfgs if tier == 'thorough' else [c for c in cfgs if configs.name(c) in SAN_QUICK]
+            san_cfgs = [c for c in cfgs if configs.closure(c) in qcfgs] if tier == 'thorough' else [c for c in cfgs if configs.name(c) in SAN_QUICK]
             for c in san_cfgs:
                 for p in sparts:
                     jobs.append(Job(src, c, 'g++', 11, 'san', p, extra=extra, libs=libs, incdirs=incdirs))
@@ -102,6 +109,8 @@ def std_args(tier, seed, prop):
     configuration (sanitizer, other optimisation levels) run the lattice/random workload only."""
     def f(job):
         a = ['--tier', tier, '--seed', str(seed), '--property', prop]
+        if tier == 'thorough':
+            a += ['--scale', '0.2']     # the harnesses' thorough workloads are 10-30x the quick ones; 0.2 keeps a run within minutes per job
         if tier == 'thorough' and job.variant == 'plain' and (job.compiler == 'g++' or configs.name(job.cfg) in SWEEP_CLANG):
             a.append('--sweep')
         return a
